@@ -35,6 +35,7 @@ pub fn run_program(program: &Program, event: Value) -> Result<Value, String> {
 }
 
 /// Compile and run in one step.
+#[allow(dead_code)]
 pub fn run_vrl(src: &str, event: Value) -> Result<Value, String> {
     run_program(&compile_vrl(src)?, event)
 }
